@@ -232,6 +232,17 @@ func (p *Program) GenFunc(fc *FuncContract, prop string) (res *FuncResult) {
 		names[prm.Name()] = v
 		inputs = append(inputs, mvs...)
 	}
+	// ghost views
+	ex.views = map[string]*viewCells{}
+	for _, gv := range fc.Views {
+		vw := &viewCells{key: gv.Key}
+		vw.set = ex.newCell("gset_"+gv.Name, SArray(SInt, SBool), nil)
+		vw.pos = ex.newCell("gpos_"+gv.Name, SArray(SInt, SInt), nil)
+		vw.set.Ghost, vw.pos.Ghost = true, true
+		st[vw.set] = vc.zeroTerm(vw.set.Sort)
+		st[vw.pos] = vc.Declare("gpos_"+gv.Name+"_init", vw.pos.Sort)
+		ex.views[gv.Name] = vw
+	}
 	entry := st.clone()
 	ex.entry = entry
 	old := &Scope{ex: ex, names: copyNames(names), st: entry, bound: map[string]Term{}}
